@@ -274,13 +274,14 @@ def gen_lg_case(cuqi, rs, thorough, forced=None):
     if c.opscale is not None:
         c.b = c.b * c.opscale
     c.buffered = bool(forced.get("buffered", c.backing == "fn" and rs.rand() < 0.3))
+    c.A_dtype = forced.get("A_dtype"); c.b_dtype = forced.get("b_dtype"); c.mean_dtype = forced.get("mean_dtype")
     return c
 
 
 def lg_desc(c):
     return {"m": c.m, "n_fun": c.nfun, "n_par": c.npar, "backing": c.backing, "geom": c.geom_label,
             "A": c.A.tolist(), "prior": [c.prior.param, c.prior.shape, c.prior.value], "lik": [c.lik.param, c.lik.shape, c.lik.value],
-            "scale": getattr(c, "scale", None), "opscale": getattr(c, "opscale", None), "buffered_forward": getattr(c, "buffered", False), "compute_cov": c.compute_cov, "mean": (c.mean.tolist() if hasattr(c.mean, "tolist") else c.mean), "b": c.b.tolist()}
+            "scale": getattr(c, "scale", None), "opscale": getattr(c, "opscale", None), "buffered_forward": getattr(c, "buffered", False), "dtypes": [getattr(c, "A_dtype", None), getattr(c, "b_dtype", None), getattr(c, "mean_dtype", None)], "compute_cov": c.compute_cov, "mean": (c.mean.tolist() if hasattr(c.mean, "tolist") else c.mean), "b": c.b.tolist()}
 
 
 def lg_key(c, site="MAP"):
@@ -290,7 +291,8 @@ def lg_key(c, site="MAP"):
     pr = c.prior.label + (cc if c.prior.param != "cov" else "")
     mean = "" if c.mean_kind in ("vector", "zeros") else ":mean-scalar"
     sc = ("" if getattr(c, "scale", None) is None else ":scaled") + ("" if getattr(c, "opscale", None) is None else ":opscaled")
-    return f"{site}:direct:{c.backing}:{g}:lik={lk}:prior={pr}{mean}{sc}"
+    dt = "" if getattr(c, "A_dtype", None) is None else ":A-" + str(c.A_dtype)
+    return f"{site}:direct:{c.backing}:{g}:lik={lk}:prior={pr}{mean}{sc}{dt}"
 
 
 def intify(a):
@@ -310,6 +312,13 @@ def build_lg(cuqi, c, as_int=False, layout=False):
     mean = c.mean.copy() if hasattr(c.mean, "copy") else c.mean
     b = c.b.copy()
     pk, lk = c.prior.kwargs(), c.lik.kwargs()
+    # narrow / non-float64 storage types of the SAME numbers (values are generated exactly representable)
+    if getattr(c, "A_dtype", None) is not None:
+        A = A.astype(c.A_dtype); assert np.array_equal(A.astype(float), c.A)
+    if getattr(c, "b_dtype", None) is not None:
+        b = b.astype(c.b_dtype); assert np.array_equal(b.astype(float), c.b)
+    if getattr(c, "mean_dtype", None) is not None and isinstance(mean, np.ndarray):
+        mean = mean.astype(c.mean_dtype)
     if as_int:
         A = intify(A); mean = intify(mean); b = intify(b)
         b = b.tolist() if isinstance(b, np.ndarray) and b.dtype.kind == "i" and len(b) % 2 == 0 else b
@@ -422,6 +431,7 @@ def run(ctx):
     run_starts(ctx, cuqi, rs, thorough)
     run_opt_scale(ctx, cuqi, rs, thorough)
     run_histories(ctx, cuqi, rs, thorough)
+    run_threshold(ctx, cuqi, rs, thorough)
     check_retained(ctx)
 
 
@@ -482,6 +492,20 @@ def run_direct(ctx, cuqi, rs, thorough):
         if k % 4 == 3:
             f["neardiag"] = True
         f["n"] = int(rs.randint(2, 5)); f["m"] = f["n"] + int(rs.randint(0, 3))
+        cases.append(gen_lg_case(cuqi, rs, thorough, f))
+    # narrow storage types whose own arithmetic wraps or is logical: bool masks, int8/uint8/int16 with row inner products
+    # beyond the type's range, float16/float32/int32 -- for the matrix, the data and the prior mean
+    narrow = [("bool", 0, 2), ("int8", -12, 13), ("uint8", 0, 17), ("int16", -200, 201), ("float16", -3, 4), ("float32", -3, 4), ("int32", -3, 4), ("uint8", 200, 256)]
+    for k in range(len(narrow) * (6 if thorough else 3)):
+        dt, lo, hi = narrow[k % len(narrow)]
+        n = int(rs.randint(3, 6)); m = int(rs.randint(2, 6))
+        A = rs.randint(lo, hi, size=(m, n)).astype(float)
+        if dt == "bool":
+            A[:, :2] = 1.0          # every pair of rows shares entries: the Gram product has entries >= 2
+        f = dict(A=A.tolist(), m=m, n=n, backing="mb", geom=["default", "Continuous1D", "Step-full"][k % 3], A_dtype=dt,
+                 prior_param="cov", prior_shape=["scalar", "scalar", "vector", "matrix"][(k // len(narrow)) % 4 if k >= len(narrow) else 0],
+                 lik_param="cov", lik_shape=["scalar", "vector", "matrix"][k % 3], mean="vector",
+                 b_dtype=[None, "int8", "float32", "float16"][k % 4], mean_dtype=[None, "float32", "int8"][k % 3])
         cases.append(gen_lg_case(cuqi, rs, thorough, f))
     # G4 on the operator: A, data and noise std on the scale 1e-15 .. 1e12 (matrix- and function-backed, all geometries)
     opscales = [1e-15, 2.5e-13, 4e-12, 1e-9, 1e-6, 1e-3, 1e3, 1e6, 1e9, 1e12]
@@ -564,8 +588,20 @@ def direct_case(ctx, cuqi, c, rs, hist):
     rcov = np.array([[float(v) for v in r] for r in pm(rcov_s[4:])])
     # ---- tie: get_matrix
     kind, gmm = parse_arr(c.gm_model)
-    if gm.shape != gmm.shape or not mclose(gm, gmm, TOL):
+    gscale = float(np.abs(gmm).max(initial=0.0))   # relative to the matrix's own scale (operators live on 1e-15 .. 1e12)
+    if gm.shape != gmm.shape or not (float(np.abs(gm - gmm).max(initial=0.0)) <= TOL * gscale or (gscale == 0.0 and not gm.any())):
         ctx.disagree(key + ":get_matrix", desc, c.gm_model[:200], str(gm.tolist())[:200], "get_matrix differs from the model")
+        # failing-input search (implementation only): the matrix the closed form uses must represent forward on parameters
+        try:
+            xx = rs.randint(-3, 4, size=c.npar).astype(float)
+            with quiet():
+                fx = np.asarray(BP.model.forward(xx), dtype=float).ravel()
+            gx = gm @ xx
+            if gx.shape != fx.shape or float(np.abs(gx - fx).max(initial=0.0)) > 1e-8 * (float(np.abs(fx).max(initial=0.0)) + float(np.abs(gm).max(initial=0.0))):
+                ctx.fail(key + ":get_matrix", {**desc, "x": xx.tolist()}, "get_matrix() @ x = forward(x) = " + str(fx.tolist())[:200], gx.tolist(),
+                         "the matrix handed to the closed form does not represent the forward map")
+        except Exception:
+            pass
     # ---- implementation: MAP
     try:
         with quiet():
@@ -693,6 +729,28 @@ def generic_case(ctx, cuqi, c, BP, desc, key, impl, rmean, rs, snap0, objs0, his
                          "MAP after re-assigning the prior mean is not the estimate of the current problem")
         except Exception as e:
             ctx.note(f"MAP after prior.mean setter raises {exc_name(e)} at {key}")
+    # the same prior / model objects owned by a second problem with other data: both estimates are those of their own problem
+    if impl[0] == "ok" and c.case_index % 4 == 2 and c.geom_label in IDENTITY_GEOMS + ("Step-full",) and c.mean_kind in ("vector", "zeros"):
+        from cuqi.distribution import Gaussian as _G
+        from cuqi.problem import BayesianProblem as _BP
+        ctx.case("lg-shared-objects", desc)
+        try:
+            b2 = rs.randint(-4, 5, size=c.m).astype(float) * (c.opscale or 1.0)
+            with quiet():
+                y2 = _G(BP.model(BP.prior), **c.lik.kwargs())
+                BP2 = _BP(y2, BP.prior).set_data(**{y2.name: b2})
+                if c.compute_cov and c.lik.param != "cov":
+                    BP2.likelihood.distribution.compute_cov()
+                xa = np.asarray(BP2.MAP(disp=False), dtype=float).ravel()
+                xb = np.asarray(BP.MAP(disp=False), dtype=float).ravel()
+            Aeff = c.A @ c.E
+            We = np.array([[float(v) for v in r] for r in c.lik.prec]); Wx = np.array([[float(v) for v in r] for r in c.prior.prec])
+            mu = np.asarray(BP.prior.mean, dtype=float).ravel()
+            ref2 = np.linalg.solve(Aeff.T @ We @ Aeff + Wx, Aeff.T @ We @ b2 + Wx @ mu)
+            if not vclose(xa, ref2, 1e-6):
+                ctx.fail(key + ":shared-objects", {**desc, "b2": b2.tolist()}, "posterior mean of the second problem " + str(ref2.tolist()), xa.tolist(), "a second problem built on the same prior/model objects returns a wrong MAP")
+        except Exception as e:
+            hist["shared_raise:" + exc_name(e)] = hist.get("shared_raise:" + exc_name(e), 0) + 1
     # G1: the same numbers with integer dtypes / python ints / a list as data
     if impl[0] == "ok" and c.case_index % 3 == 0:
         ctx.case("lg-int-inputs", desc)
@@ -1497,3 +1555,60 @@ def run_histories(ctx, cuqi, rs, thorough):
         elif not mclose(L @ L.T, rcov, 1e-7):
             ctx.fail(skey, desc, "L L^T = current posterior covariance", (L @ L.T).tolist(), "direct draws after the history do not have the current posterior covariance")
     ctx.extra_cov["history_histogram"] = hist
+
+
+# ----------------------------------------------------------------------------------------------- sizes straddling internal constants
+def run_threshold(ctx, cuqi, rs, thorough):
+    """dimensions just below / at / above `config.MIN_DIM_SPARSE` (75: Gaussians switch to sparse storage) on the direct
+    route; oracle only (float reference by numpy normal equations; the exact model would be too slow at this size)"""
+    from cuqi.distribution import Gaussian
+    from cuqi.model import LinearModel
+    from cuqi.problem import BayesianProblem
+    T = int(cuqi.config.MIN_DIM_SPARSE)
+    sizes = [(T + 1, T + 1), (T, T + 1), (T + 1, T - 1), (T - 1, T)] + ([(T + 2, T + 1), (T, T), (T + 1, T), (T - 1, T + 2)] if thorough else [])
+    for k, (m, n) in enumerate(sizes):
+        A = np.zeros((m, n))
+        for i in range(m):
+            for j in range(max(0, i - 2), min(n, i + 3)):
+                A[i, j] = float(rs.randint(-2, 3))
+            if i < n:
+                A[i, i] += 4.0
+        mean = rs.randint(-2, 3, size=n).astype(float); b = rs.randint(-4, 5, size=m).astype(float)
+        pshape = ["scalar", "vector", "matrix"][k % 3]; lshape = ["vector", "scalar", "matrix"][k % 3]
+
+        def val(shape, d):
+            if shape == "scalar":
+                return float(rs.choice([0.5, 2.0]))
+            if shape == "vector":
+                return rs.choice([0.5, 1.0, 2.0, 4.0], size=d).astype(float)
+            return 2.0 * np.eye(d) + 0.5 * (np.eye(d, k=1) + np.eye(d, k=-1))
+
+        def full(v, d):
+            return v * np.eye(d) if np.ndim(v) == 0 else (np.diag(v) if np.ndim(v) == 1 else v)
+        cx, ce = val(pshape, n), val(lshape, m)
+        Wx, We = np.linalg.inv(full(cx, n)), np.linalg.inv(full(ce, m))
+        H = A.T @ We @ A + Wx
+        ref = np.linalg.solve(H, A.T @ We @ b + Wx @ mean)
+        desc = {"m": m, "n": n, "MIN_DIM_SPARSE": T, "prior_cov": pshape, "noise_cov": lshape, "seed_k": k}
+        key = f"MAP:direct:threshold:m{'<=' if m <= T else '>'}T:n{'<=' if n <= T else '>'}T:lik=cov-{lshape}:prior=cov-{pshape}"
+        ctx.case("threshold", desc)
+        try:
+            with quiet():
+                x = Gaussian(mean, cov=cx); y = Gaussian(LinearModel(A)(x), cov=ce)
+                BP = BayesianProblem(y, x).set_data(y=b)
+                xm = np.asarray(BP.MAP(disp=False), dtype=float).ravel()
+        except Exception as e:
+            ctx.note(f"{key} raises {exc_name(e)}: {str(e)[:80]}"); continue
+        oracle_point(ctx, key, desc, BP.posterior, xm, ref, rs, tol_point=1e-7, what="MAP")
+        orig = np.random.randn
+        np.random.randn = lambda *a: np.zeros(a)
+        try:
+            with quiet():
+                S = BP.sample_posterior(1)
+            s1 = np.asarray(S.samples, dtype=float)[:, 0]
+            if not vclose(s1, ref, 1e-7):
+                ctx.fail(key.replace("MAP:", "sample:", 1), desc, "draw for xi=0 = posterior mean", s1.tolist()[:10], "direct draw at a size straddling MIN_DIM_SPARSE is not centred on the posterior mean")
+        except Exception as e:
+            ctx.note(f"{key} sample raises {exc_name(e)}")
+        finally:
+            np.random.randn = orig
